@@ -819,8 +819,10 @@ def remap_by_types(
 
         def visit_UnaryOp(self, node: ast.UnaryOp) -> Any:
             t_node = self.generic_visit(node)
-            self._found_types[node] = self.lookup_type(node.operand)
-            self._found_types[t_node] = self.lookup_type(node.operand)
+            # `not x` is a boolean whatever `x` is; -x, +x, ~x keep the type of x
+            u_type = bool if isinstance(node.op, ast.Not) else self.lookup_type(node.operand)
+            self._found_types[node] = u_type
+            self._found_types[t_node] = u_type
             return t_node
 
         def visit_BinOp(self, node: ast.BinOp) -> Any:
